@@ -67,4 +67,7 @@ theorem C16_error_report_never_blocks (goroutines : List Bool) (cap : Nat) (h : 
 /-- … and with a smaller buffer two failing goroutines do hang. -/
 theorem C16_error_report_blocks_witness : sendAll 1 [true, true] 0 = none := by decide
 
+/-- the progress bar objects shared by the workers are created lazily under a lock -/
+theorem C16_fact_pbarLazyInitLocked : Facts.pbarLazyInitLocked = true := by decide
+
 end Wrgl
